@@ -134,7 +134,7 @@ def ext_list(a):
     return "[" + "; ".join(ext_lit(x) for x in a) + "]" if a else "(@nil (ext Q))"
 
 
-def make_form(inst, kind, rng, keep_neginf_pairs=False):
+def make_form(inst, kind, rng, keep_neginf_pairs=False, order=None):
     """kind in product | sa_sorted | sa_shuffled | sa_sparse | sa_sparse_shuffled"""
     import scipy.sparse as sp
     f = Form()
@@ -151,7 +151,11 @@ def make_form(inst, kind, rng, keep_neginf_pairs=False):
         return f
     pairs = [(s, a) for s in range(n) for a in range(m) if inst.R[s][a] is not None or (keep_neginf_pairs and rng.random() < 0.5)]
     f.order = "sorted"
-    if "shuffled" in kind:
+    if order is not None:
+        assert sorted(order) == sorted(pairs)
+        pairs = [tuple(p_) for p_ in order]
+        f.order = "corpus:within_state"
+    elif "shuffled" in kind:
         # orders: fully random; states non-decreasing but actions permuted INSIDE each state (defeats a sortedness
         # test that only looks at s_indices); actions descending inside each state
         mode = rng.choice(["random", "within_state", "within_state", "within_state_desc"])
@@ -188,6 +192,28 @@ def make_form(inst, kind, rng, keep_neginf_pairs=False):
         n, natlist(f.s), natlist(f.a), ext_list(inst.R[s][a] for s, a in pairs),
         qlist2([inst.Q[s][a] for s, a in pairs]), qlit(inst.beta))
     return f
+
+
+def corpus():
+    """deterministic instances that always run first: sa pairs whose states are non-decreasing but whose actions are permuted
+    INSIDE the states (e.g. s=[0,0,0,1,1,1], a=[0,2,1,0,2,1]), with rewards / rows such that using the row of a neighbouring
+    action changes the optimal value (the optimal action is the middle label).  Returns [(inst, [pair orders])]."""
+    F = Fraction
+    out = []
+    i1 = Inst(2, 3, [[F(1), F(3), F(1, 2)], [F(0), F(2), F(1, 5)]],
+              [[[F(9, 10), F(1, 10)], [F(1, 5), F(4, 5)], [F(1, 2), F(1, 2)]], [[F(1), F(0)], [F(3, 5), F(2, 5)], [F(3, 10), F(7, 10)]]],
+              F(9, 10), False, "corpus")
+    out.append((i1, [[(0, 0), (0, 2), (0, 1), (1, 0), (1, 2), (1, 1)], [(0, 2), (0, 1), (0, 0), (1, 2), (1, 1), (1, 0)]]))
+    i2 = Inst(3, 3, [[F(0), F(4), F(1)], [F(1), F(3), None], [F(-1), F(2), F(0)]],
+              [[[F(1), F(0), F(0)], [F(0), F(1, 2), F(1, 2)], [F(0), F(0), F(1)]],
+               [[F(0), F(1), F(0)], [F(1, 4), F(1, 4), F(1, 2)], [F(1), F(0), F(0)]],
+               [[F(0), F(0), F(1)], [F(1, 2), F(1, 2), F(0)], [F(1, 8), F(7, 8), F(0)]]], F(3, 4), True, "corpus")
+    out.append((i2, [[(0, 0), (0, 2), (0, 1), (1, 1), (1, 0), (2, 0), (2, 2), (2, 1)], [(0, 1), (0, 0), (0, 2), (1, 0), (1, 1), (2, 2), (2, 0), (2, 1)]]))
+    i3 = Inst(2, 4, [[F(0), F(1), F(5), F(1)], [F(2), F(0), F(3), F(-1)]],
+              [[[F(1), F(0)], [F(1, 2), F(1, 2)], [F(0), F(1)], [F(1, 2), F(1, 2)]], [[F(0), F(1)], [F(1), F(0)], [F(1, 2), F(1, 2)], [F(1), F(0)]]],
+              F(1, 2), True, "corpus")
+    out.append((i3, [[(0, 0), (0, 3), (0, 1), (0, 2), (1, 0), (1, 3), (1, 2), (1, 1)], [(0, 0), (0, 2), (0, 3), (0, 1), (1, 0), (1, 2), (1, 1), (1, 3)]]))
+    return out
 
 
 FORM_KINDS = ["product", "sa_sorted", "sa_shuffled", "sa_sparse", "sa_sparse_shuffled"]
@@ -557,14 +583,20 @@ def run(ctx):
     conv_cases, conv_meta = [], []
     seq_cases, seq_meta = [], []
 
+    corp = corpus()
+    corp_orders = {id(ci): orders for ci, orders in corp}
+    insts = [ci for ci, _ in corp] + insts
     for ii, inst in enumerate(insts):
         kinds = FORM_KINDS if (thorough or ii % 2 == 0) else [rng.choice(FORM_KINDS[:1] + FORM_KINDS[2:3]), rng.choice(FORM_KINDS[1:])]
+        plan = [(k_, None) for k_ in kinds]
+        if id(inst) in corp_orders:
+            plan = [(k_, o_) for o_ in corp_orders[id(inst)] for k_ in ("sa_shuffled", "sa_sparse_shuffled")] + [("product", None)]
         ctx.count("n=%d" % inst.n); ctx.count("m=%d" % inst.m); ctx.count("beta=%s" % inst.beta); ctx.count("chain:" + inst.tag)
         if any(x is None for r in inst.R for x in r):
             ctx.count("has -inf reward")
-        for kind in kinds:
+        for kind, order_ in plan:
             try:
-                form = make_form(inst, kind, rng, keep_neginf_pairs=(rng.random() < 0.25))
+                form = make_form(inst, kind, rng, keep_neginf_pairs=(rng.random() < 0.25 and order_ is None), order=order_)
                 ctx.count("form:" + kind)
                 if kind != "product":
                     ctx.count("pair order:" + form.order)
